@@ -98,6 +98,16 @@ Theorem C02_bivariate_k_sample_on_the_answer_space : forall (x : seq Q) (g1 g2 :
 Proof. exact bivariate_on_space. Qed.
 Print Assumptions C02_bivariate_k_sample_on_the_answer_space.
 
+Theorem C02_stratified_permutationtest_on_the_answer_space : forall (g c : seq Z) s a r plus1 ds,
+  size c = size g -> (2 <= length (unique c))%coq_nat ->
+  ds \in tuples (prod_draws (sizes g (unique g))) r ->
+  let rows := [seq [seq nth 0%Z c i | i <- pwg_out g t] | t <- ds] in
+  let tst := evalv s (List.map inject_Z c) in
+  let d := [seq evalv s (List.map inject_Z cp) | cp <- rows] in
+  spt_callable g c s a r plus1 (flatten ds) = Ok (Some (strat_pvalue a (count_ge tst d) r plus1, tst, d, rows), [::]).
+Proof. exact spt_on_space. Qed.
+Print Assumptions C02_stratified_permutationtest_on_the_answer_space.
+
 Theorem C02_stratified_two_sample_on_the_answer_space : forall (g c : seq Z) (resp : seq Q) ord s a r plus1 ds,
   let resp' := List.map (fun i => List.nth i resp 0%Q) ord in
   let g' := List.map (fun i => List.nth i g 0%Z) ord in
@@ -135,3 +145,34 @@ Example C02_binomial_nonvacuous :
    count (fun ds => count extreme (if pwg_reps 0 (iota 0 4) g 2 (flatten ds) is Ok rt then rt.1 else [::]) == 1) (tuples space 2))
   = (4, 2, 8).
 Proof. vm_compute. reflexivity. Qed.
+
+(* permute_rows (simulate_ts_dist's rearrangement of every rater's row): over the product answer space -- one block of
+   Fisher-Yates answers per row -- it is total, injective and onto the row-wise rearrangements, hence uniform on them
+   (duplicate-free rows, i.e. positions; size of the space prod_r (size r)!) *)
+From PV Require Import Model.Stratified Proofs.StratUniform Proofs.RowsUniform.
+Theorem C02_permute_rows_is_uniform_on_rowwise_rearrangements : forall (T : eqType) (m : seq (seq T)), all uniq m ->
+  [/\ size (prod_draws (row_sizes m)) = \prod_(r <- m) (size r)`!,
+      forall t rest, t \in prod_draws (row_sizes m) ->
+        exists2 m', permute_rows m (t ++ rest) = Ok (m', rest) & rowwise_perm m m',
+      forall t t' m', t \in prod_draws (row_sizes m) -> t' \in prod_draws (row_sizes m) ->
+        permute_rows m t = Ok (m', [::]) -> permute_rows m t' = Ok (m', [::]) -> t = t' &
+      forall m', rowwise_perm m m' -> exists2 t, t \in prod_draws (row_sizes m) & permute_rows m t = Ok (m', [::])].
+Proof.
+move=> T m U; split; [exact: size_rows_space | exact: rows_total | by move=> t t' m'; apply: rows_inj | by move=> m'; apply: rows_surj].
+Qed.
+Print Assumptions C02_permute_rows_is_uniform_on_rowwise_rearrangements.
+
+(* simulate_ts_dist's chain (each repetition permutes the rows of the matrix left by the previous one): the hit count is
+   Binomial(reps, pstar) over the (prod_r (size r)!)^reps answer sequences, from whichever row-wise rearrangement the
+   chain starts; a = number of answers whose rearrangement of the ORIGINAL matrix is extreme *)
+From PV Require Import Proofs.RowsBinomial.
+Close Scope Q_scope.
+Local Open Scope nat_scope.
+Theorem C02_row_permutation_chain_hit_count_is_binomial :
+  forall (T : eqType) (m0 : seq (seq T)) (extreme : seq (seq T) -> bool) r h m, all uniq m0 -> rowwise_perm m0 m ->
+  let space := prod_draws (row_sizes m0) in
+  let a := count (fun t => extreme (rows_out m0 t)) space in
+  count (fun ds => count extreme (if rows_chain m r (flatten ds) is Ok rt then rt.1 else [::]) == h) (tuples space r)
+  = 'C(r, h) * a ^ h * (size space - a) ^ (r - h).
+Proof. move=> T m0 extreme r h m U pm; exact: rows_chain_binomial. Qed.
+Print Assumptions C02_row_permutation_chain_hit_count_is_binomial.
